@@ -363,4 +363,1017 @@ Section AppendTx.
     intros c H E. destruct OK as [_ [_ N2]]. apply N2. rewrite <- E.
     apply (sf_origin _ _ _ _ _ SF) in H. eapply origin_id; eauto.
   Qed.
+  Lemma T_pos : forall r, In r T -> tr_bn (snd r) < bn \/ (tr_bn (snd r) = bn /\ tr_txi (snd r) < i).
+  Proof. intros r H. apply (sf_tpos _ _ _ _ _ SF) in H. destruct H as [H|H]; auto. Qed.
+
+  Let ops := tx_ops st0 b i t.
+  Lemma ops_D : forall c kv, Cs c -> In kv (cell_kvs c) -> In (Del (fst kv)) ops.
+  Proof.
+    intros c kv H1 H2. apply (proj2 (tx_ops_live (Del (fst kv)))). left. exists c. split; auto.
+    apply in_map_iff. exists kv. auto.
+  Qed.
+  Lemma ops_PN : forall c kv, In c (new_cells bn i t) -> In kv (cell_kvs c) -> In (Put (fst kv) (snd kv)) ops.
+  Proof.
+    intros c kv H1 H2. apply (proj2 (tx_ops_live (Put (fst kv) (snd kv)))). right. left. exists c. split; auto.
+    apply in_map_iff. exists kv. auto.
+  Qed.
+  Lemma ops_PR : forall r, In r (rows_tx bn L i t) -> In (Put (fst (trow_kv r)) (snd (trow_kv r))) ops.
+  Proof.
+    intros r H. apply (proj2 (tx_ops_live (Put (fst (trow_kv r)) (snd (trow_kv r))))). right. right. exists r. auto.
+  Qed.
+  Lemma ops_cls : forall o, In o ops -> live_key (bop_key o) = true ->
+    (exists c kv, Cs c /\ In kv (cell_kvs c) /\ o = Del (fst kv)) \/
+    (exists c kv, In c (new_cells bn i t) /\ In kv (cell_kvs c) /\ o = Put (fst kv) (snd kv)) \/
+    (exists r, In r (rows_tx bn L i t) /\ o = Put (fst (trow_kv r)) (snd (trow_kv r))).
+  Proof.
+    intros o H1 H2. destruct (proj1 (tx_ops_live o) (conj H1 H2)) as [[c [HC HD]]|[[c [HC HP]]|[r [Hr E]]]].
+    - left. apply in_map_iff in HD. destruct HD as [kv [E HD]]. exists c, kv. auto.
+    - right. left. apply in_map_iff in HP. destruct HP as [kv [E HP]]. exists c, kv. auto.
+    - right. right. exists r. auto.
+  Qed.
+
+  Lemma dis_old_new : forall c c' k v v', In c L -> In c' (new_cells bn i t) ->
+    In (k, v) (cell_kvs c) -> In (k, v') (cell_kvs c') -> False.
+  Proof.
+    intros c c' k v v' H H' Hk Hk'. apply cell_kvs_key_info in Hk. apply cell_kvs_key_info in Hk'.
+    apply in_new_cells in H'. destruct H' as [oi [out [_ ->]]]. cbn [lc_op lc_bn lc_txi snd] in Hk'.
+    pose proof (L_pos c H) as P. pose proof (L_id c H) as I.
+    destruct k; try contradiction.
+    - apply I. rewrite <- Hk, Hk'. reflexivity.
+    - lia.
+    - lia.
+  Qed.
+  Lemma dis_rows : forall r r', In r T -> In r' (rows_tx bn L i t) -> fst (trow_kv r) = fst (trow_kv r') -> False.
+  Proof.
+    intros r r' H H' E. pose proof (trow_kv_key_info r) as K. pose proof (trow_kv_key_info r') as K'.
+    rewrite E in K. apply T_pos in H. apply rows_tx_pos in H'.
+    destruct (fst (trow_kv r')); try contradiction; lia.
+  Qed.
+
+  Lemma live_append_tx :
+    LiveInv (commit st ops) (PL bn L0 T0 (pre ++ [t])) (PT bn L0 T0 (pre ++ [t])).
+  Proof.
+    rewrite PL_snoc, PT_snoc. fold i L T. unfold live_tx.
+    apply live_inv_step with (L := L) (T := T); auto.
+    - intros k o o' Hk Ho Ho' Ek Ek'.
+      destruct (ops_cls o Ho) as [[c [kv [HC [Hkv ->]]]]|[[c [kv [HC [Hkv ->]]]]|[r [Hr ->]]]]; [rewrite Ek; auto| | |];
+      (destruct (ops_cls o' Ho') as [[c' [kv' [HC' [Hkv' ->]]]]|[[c' [kv' [HC' [Hkv' ->]]]]|[r' [Hr' ->]]]]; [rewrite Ek'; auto| | |]);
+      cbn [bop_key bop_res] in *; try reflexivity; try destruct kv as [k1 v1]; try destruct kv' as [k2 v2];
+        cbn [fst snd] in *; subst.
+      + exfalso. apply Cs_in in HC. eapply dis_old_new; [apply HC|apply HC'|apply Hkv|apply Hkv'].
+      + exfalso. eapply cell_kvs_not_trow; eauto.
+      + exfalso. apply Cs_in in HC'. eapply dis_old_new; [apply HC'|apply HC|apply Hkv'|apply Hkv].
+      + f_equal. assert (c = c').
+        { apply (nodup_map_inj_in lc_op (new_cells bn i t)); auto. apply new_cells_nodup.
+          eapply cell_kvs_key_op; eauto.
+          apply in_new_cells in HC. apply in_new_cells in HC'.
+          destruct HC as [? [? [_ ->]]]. destruct HC' as [? [? [_ ->]]]. reflexivity. }
+        subst c'. eapply cell_kvs_fun; eauto.
+      + exfalso. eapply cell_kvs_not_trow; eauto.
+      + exfalso. eapply cell_kvs_not_trow; eauto.
+      + exfalso. eapply cell_kvs_not_trow; eauto.
+      + f_equal. unfold trow_kv. cbn [snd]. rewrite (rows_tx_tx _ _ _ _ _ Hr), (rows_tx_tx _ _ _ _ _ Hr'). reflexivity.
+    - intros k v Hk. rewrite in_live_kvs. split.
+      + intros [[c [Hc Hkv]]|[r [Er Hr]]].
+        * apply in_app_or in Hc. destruct Hc as [Hc|Hc].
+          -- apply in_fold_spend in Hc. destruct Hc as [Hc1 Hc2]. right. split.
+             ++ intro HI. apply in_map_iff in HI. destruct HI as [o [Eo Ho]].
+                destruct (ops_cls o Ho) as [[c' [kv [HC [Hkv' ->]]]]|[[c' [kv [HC [Hkv' ->]]]]|[r [Hr ->]]]];
+                  [rewrite Eo; auto| | |]; cbn [bop_key] in Eo; try destruct kv as [k1 v1]; cbn [fst] in Eo; subst.
+                ** apply Cs_in in HC as HC2. destruct HC2 as [HC2 HC3].
+                   assert (v1 = v).
+                   { assert (G1 : get st k = Some v1). { apply LI; auto. apply in_live_kvs. left. eauto. }
+                     assert (G2 : get st k = Some v). { apply LI; auto. apply in_live_kvs. left. eauto. }
+                     congruence. }
+                   subst v1. apply Hc2. rewrite (cell_kvs_same_op c c' k v); auto.
+                ** eapply dis_old_new; [apply Hc1|apply HC|apply Hkv|apply Hkv'].
+                ** eapply cell_kvs_not_trow; eauto.
+             ++ apply in_live_kvs. left. eauto.
+          -- left. apply (ops_PN c (k, v)); auto.
+        * apply in_app_or in Hr. destruct Hr as [Hr|Hr].
+          -- right. split.
+             ++ intro HI. apply in_map_iff in HI. destruct HI as [o [Eo Ho]].
+                assert (Ek : fst (trow_kv r) = k) by (rewrite Er; reflexivity).
+                destruct (ops_cls o Ho) as [[c' [kv [HC [Hkv' ->]]]]|[[c' [kv [HC [Hkv' ->]]]]|[r' [Hr' ->]]]];
+                  [rewrite Eo; auto| | |]; cbn [bop_key] in Eo; try destruct kv as [k1 v1]; cbn [fst] in Eo; subst.
+                ** eapply cell_kvs_not_trow; eauto.
+                ** eapply cell_kvs_not_trow; eauto.
+                ** eapply dis_rows; eauto.
+             ++ apply in_live_kvs. right. eauto.
+          -- left. pose proof (ops_PR r Hr) as P. rewrite Er in P. exact P.
+      + intros [HP|[Hn HI]].
+        * destruct (ops_cls _ HP Hk) as [[c' [kv [HC [Hkv' E]]]]|[[c' [kv [HC [Hkv' E]]]]|[r [Hr E]]]].
+          -- discriminate.
+          -- injection E as E1 E2. left. exists c'. split. apply in_or_app; auto.
+             rewrite (surjective_pairing kv) in Hkv'. congruence.
+          -- injection E as E1 E2. right. exists r. split; [|apply in_or_app; auto].
+             subst k v. reflexivity.
+        * apply in_live_kvs in HI. destruct HI as [[c [Hc Hkv]]|[r [Er Hr]]].
+          -- left. exists c. split; auto. apply in_or_app. left. apply in_fold_spend. split; auto.
+             intro Hin. apply Hn. apply in_map_iff. exists (Del k). split; auto.
+             apply (ops_D c (k, v)); auto. apply in_Cs; auto.
+          -- right. exists r. split; auto. apply in_or_app; auto.
+  Qed.
 End AppendTx.
+
+Lemma live_inv_aux_ops : forall st L T ops, LiveInv st L T ->
+  (forall o, In o ops -> live_key (bop_key o) = false) -> LiveInv (commit st ops) L T.
+Proof.
+  intros st L T ops LI H k v Hk. rewrite get_commit. rewrite last_op_not_in. apply LI; auto.
+  intro HI. apply in_map_iff in HI. destruct HI as [o [E HI]]. apply H in HI. congruence.
+Qed.
+
+Lemma find_tx_nth : forall l j t k, NoDup (map t_id l) -> nth_error l j = Some t ->
+  find_tx (t_id t) k l = Some (k + N.of_nat j, t).
+Proof.
+  induction l as [|a l IH]; intros j t k ND H. destruct j; discriminate.
+  cbn [map] in ND. inversion ND; subst. destruct j; cbn [nth_error find_tx] in *.
+  - inversion H; subst. rewrite N.eqb_refl. do 2 f_equal. lia.
+  - destruct (N.eqb_spec (t_id a) (t_id t)) as [E|E].
+    + exfalso. apply H2. rewrite E. apply in_map. eapply nth_error_In; eauto.
+    + rewrite (IH j t (N.succ k)); auto. do 2 f_equal. lia.
+Qed.
+
+(* ---- the rollback data ------------------------------------------------------------------------ *)
+Definition smatched (i : N) (t : tx) : bool :=
+  (N.ltb 0 i && negb (match t_inputs t with [] => true | _ => false end))
+  || negb (match t_outputs t with [] => true | _ => false end).
+Definition smatched_txs (b : block) : list (N * N * N) :=
+  concat (mapi (fun txi t => if smatched txi t
+                             then [(t_id t, N.of_nat (length (t_outputs t)), txi)] else [])
+               0 (b_txs b)).
+Definition sflag (b : block) : bool := negb (Nat.eqb (length (smatched_txs b)) (length (b_txs b))).
+Definition hdr_key (b : block) : key := KHeader (b_num b) (b_id b) (sflag b).
+Definition hdr_val (b : block) : value := VTxs (smatched_txs b).
+
+
+Lemma existsb_all_true : forall {A} (f : A -> bool) l, (forall x, In x l -> f x = true) ->
+  existsb f l = negb (match l with [] => true | _ => false end).
+Proof. intros A f [|a l] H; cbn; auto. rewrite H; cbn; auto. Qed.
+
+Lemma tx_matched_ok : forall st b i t,
+  (forall op, In op (tx_ins i t) -> is_found (resolve st b op) = true) ->
+  tx_matched st b i t = smatched i t.
+Proof.
+  intros st b i t H. unfold tx_matched, smatched, tx_ins in *. destruct (0 <? i); cbn [andb]; auto.
+  rewrite existsb_all_true; auto.
+Qed.
+
+Lemma app_eq_len : forall {A} (a a' x x' : list A), a ++ x = a' ++ x' -> length a = length a' -> a = a'.
+Proof.
+  induction a as [|y a IH]; intros [|y' a'] x x' E H; cbn in *; try discriminate; auto.
+  inversion E; subst. f_equal. eapply IH; eauto.
+Qed.
+
+(* ---- all transactions of a block ------------------------------------------------------------- *)
+Section AppendBlock.
+  Variables (st0 : store) (b : block) (L0 : list lcell) (T0 : list (bool * trow)) (ids0 : list N).
+  Let bn := b_num b.
+  Hypothesis HND : NoDup (map lc_op L0).
+  Hypothesis Hbn : forall c, In c L0 -> lc_bn c < bn.
+  Hypothesis Hid : forall c, In c L0 -> In (fst (lc_op c)) ids0.
+  Hypothesis HTbn : forall r, In r T0 -> tr_bn (snd r) < bn.
+  Hypothesis HTND : NoDup T0.
+  Hypothesis POK : pre_ok bn L0 ids0 (b_txs b).
+  Hypothesis LI0 : LiveInv st0 L0 T0.
+
+  Lemma prefix_facts : forall pre rest, b_txs b = pre ++ rest -> SeqFacts bn L0 T0 ids0 pre.
+  Proof.
+    intros pre rest E. apply seq_facts; auto. rewrite E in POK. eapply pre_ok_prefix; eauto.
+  Qed.
+  Lemma prefix_step_ok : forall pre t rest, b_txs b = pre ++ t :: rest -> tx_step_ok bn L0 T0 ids0 pre t.
+  Proof.
+    intros pre t rest E. assert (P : pre_ok bn L0 ids0 (pre ++ [t])).
+    { rewrite E in POK. replace (pre ++ t :: rest) with ((pre ++ [t]) ++ rest) in POK by (rewrite <- app_assoc; reflexivity).
+      eapply pre_ok_prefix; eauto. }
+    destruct (pre_ok_snoc bn L0 T0 ids0 pre t P) as [_ H]. exact H.
+  Qed.
+
+  Lemma resolve_ok : forall pre rest op c, b_txs b = pre ++ rest ->
+    lookup_cell (PL bn L0 T0 pre) op = Some c ->
+    resolve st0 b op = RFound (lc_bn c) (lc_txi c) (lc_out c).
+  Proof.
+    intros pre rest op c E H. pose proof (prefix_facts pre rest E) as SF.
+    apply lookup_some in H. destruct H as [H <-]. apply (sf_origin _ _ _ _ _ SF) in H.
+    unfold resolve. destruct H as [H|[j [t [H1 H2]]]].
+    - assert (G : get st0 (KOutPoint (lc_op c)) = Some (VCell (lc_bn c) (lc_txi c) (lc_out c))).
+      { apply LI0; auto. apply in_live_kvs. left. exists c. split; auto. left. reflexivity. }
+      rewrite G. reflexivity.
+    - assert (Ht : nth_error (b_txs b) j = Some t).
+      { rewrite E. rewrite nth_error_app1; auto. apply nth_error_Some. congruence. }
+      apply in_new_cells in H2. destruct H2 as [oi [o [H2 ->]]]. cbn [lc_op lc_bn lc_txi lc_out fst snd].
+      destruct (get st0 (KOutPoint (t_id t, N.of_nat oi))) as [v|] eqn:G.
+      + exfalso. apply LI0 in G; auto. apply in_live_kvs in G. destruct G as [[c0 [G1 G2]]|[r [G1 G2]]].
+        * apply cell_kvs_key_info in G2. destruct POK as [_ [_ F]]. apply (F t).
+          eapply nth_error_In; eauto. apply Hid in G1. rewrite <- G2 in G1. exact G1.
+        * pose proof (trow_kv_key_info r) as K. rewrite G1 in K. exact K.
+      + destruct POK as [_ [ND _]]. rewrite (find_tx_nth _ _ _ 0 ND Ht).
+        rewrite Nat2N.id, H2. rewrite N.add_0_l. reflexivity.
+  Qed.
+
+  Lemma prefix_resolves : forall pre t rest, b_txs b = pre ++ t :: rest ->
+    forall op, In op (tx_ins (N.of_nat (length pre)) t) ->
+    exists c, lookup_cell (PL bn L0 T0 pre) op = Some c /\
+              resolve st0 b op = RFound (lc_bn c) (lc_txi c) (lc_out c).
+  Proof.
+    intros pre t rest E op Hop. destruct (prefix_step_ok pre t rest E) as [R _].
+    destruct (R op Hop) as [c Hc]. exists c. split; auto. eapply resolve_ok; eauto.
+  Qed.
+
+  Lemma live_append_txs : forall pre rest, b_txs b = pre ++ rest ->
+    LiveInv (commit st0 (concat (mapi (tx_ops st0 b) 0 pre))) (PL bn L0 T0 pre) (PT bn L0 T0 pre).
+  Proof.
+    induction pre as [|t pre IH] using rev_ind; intros rest E.
+    - exact LI0.
+    - rewrite <- app_assoc in E. cbn [app] in E.
+      rewrite mapi_app, concat_app, commit_app. cbn [mapi concat]. rewrite app_nil_r, N.add_0_l.
+      eapply live_append_tx; eauto.
+      + eapply prefix_facts; eauto.
+      + eapply prefix_step_ok; eauto.
+      + eapply prefix_resolves; eauto.
+  Qed.
+
+  Lemma live_append_noprune :
+    LiveInv (append_noprune st0 b) (PL bn L0 T0 (b_txs b)) (PT bn L0 T0 (b_txs b)).
+  Proof.
+    unfold append_noprune, append_ops. rewrite commit_app. apply live_inv_aux_ops.
+    - apply (live_append_txs (b_txs b) []). rewrite app_nil_r. reflexivity.
+    - intros o [<-|[]]. reflexivity.
+  Qed.
+  Lemma in_append_ops : forall o,
+    In o (append_ops st0 b) <->
+    (exists j t, nth_error (b_txs b) j = Some t /\ In o (tx_ops st0 b (N.of_nat j) t)) \/ o = header_op st0 b.
+  Proof.
+    intro o. unfold append_ops. rewrite in_app_iff, in_concat_mapi. cbn [In]. apply or_iff2.
+    - split; intros [j [t [H1 H2]]]; exists j, t; rewrite N.add_0_l in *; auto.
+    - split; [intros [H|[]]|]; auto.
+  Qed.
+
+  Lemma tx_matched_block : forall j t, nth_error (b_txs b) j = Some t ->
+    tx_matched st0 b (N.of_nat j) t = smatched (N.of_nat j) t.
+  Proof.
+    intros j t H. apply nth_error_split in H. destruct H as [pre [post [E <-]]].
+    apply tx_matched_ok. intros op Hop. destruct (prefix_resolves pre t post E op Hop) as [c [_ R]].
+    rewrite R. reflexivity.
+  Qed.
+  Lemma matched_txs_ok : matched_txs st0 b = smatched_txs b.
+  Proof.
+    unfold matched_txs, smatched_txs. f_equal. apply mapi_ext_in. intros j t H.
+    rewrite N.add_0_l, tx_matched_block; auto.
+  Qed.
+  Lemma header_op_ok : header_op st0 b = Put (hdr_key b) (hdr_val b).
+  Proof. unfold header_op. rewrite matched_txs_ok. reflexivity. Qed.
+
+  Lemma append_ops_aux : forall o, In o (append_ops st0 b) -> live_key (bop_key o) = false ->
+    (exists pre t post op c, b_txs b = pre ++ t :: post /\ In op (tx_ins (N.of_nat (length pre)) t) /\
+        lookup_cell (PL bn L0 T0 pre) op = Some c /\
+        o = Put (KConsumed bn op) (VCell (lc_bn c) (lc_txi c) (lc_out c))) \/
+    (exists j t, nth_error (b_txs b) j = Some t /\ smatched (N.of_nat j) t = true /\
+        o = Put (KTxHash (t_id t)) (VInputs (t_inputs t))) \/
+    o = Put (hdr_key b) (hdr_val b).
+  Proof.
+    intros o H Hl. apply in_append_ops in H. destruct H as [[j [t [H1 H2]]]|H].
+    - pose proof H1 as H1'. apply nth_error_split in H1. destruct H1 as [pre [post [E <-]]].
+      rewrite (in_tx_ops st0 b (PL bn L0 T0 pre) _ t o (prefix_resolves pre t post E)) in H2.
+      destruct H2 as [[ii [op [c [G1 [G2 G3]]]]]|[[oi [out [G1 G2]]]|[G1 G2]]].
+      + destruct G3 as [G3|[G3|G3]].
+        * exfalso. apply in_map_iff in G3. destruct G3 as [[k v] [<- G3]]. apply cell_kvs_live in G3.
+          cbn in Hl. congruence.
+        * exfalso. apply in_map_iff in G3. destruct G3 as [kv [<- G3]]. apply in_map_iff in G3.
+          destruct G3 as [r [<- G3]]. cbn [PutKv bop_key] in Hl. rewrite trow_kv_live in Hl. discriminate.
+        * left. exists pre, t, post, op, c. split; auto. split; auto. eapply nth_error_In; eauto.
+      + exfalso. destruct G2 as [G2|G2].
+        * apply in_map_iff in G2. destruct G2 as [[k v] [<- G3]]. apply cell_kvs_live in G3.
+          cbn in Hl. congruence.
+        * apply in_map_iff in G2. destruct G2 as [kv [<- G3]]. apply in_map_iff in G3.
+          destruct G3 as [r [<- G3]]. cbn [PutKv bop_key] in Hl. rewrite trow_kv_live in Hl. discriminate.
+      + right. left. exists (length pre), t. rewrite tx_matched_block in G1; auto.
+    - right. right. rewrite <- header_op_ok. auto.
+  Qed.
+
+  Lemma append_ops_consumed : forall pre t post op c, b_txs b = pre ++ t :: post ->
+    In op (tx_ins (N.of_nat (length pre)) t) -> lookup_cell (PL bn L0 T0 pre) op = Some c ->
+    In (Put (KConsumed bn op) (VCell (lc_bn c) (lc_txi c) (lc_out c))) (append_ops st0 b).
+  Proof.
+    intros pre t post op c E Hop Hc. apply in_append_ops. left. exists (length pre), t. split.
+    - rewrite E. apply nth_error_app_mid.
+    - apply (in_tx_ops st0 b (PL bn L0 T0 pre) _ t _ (prefix_resolves pre t post E)).
+      left. apply In_nth_error in Hop. destruct Hop as [ii Hop]. exists ii, op, c. auto.
+  Qed.
+  Lemma append_ops_txhash : forall j t, nth_error (b_txs b) j = Some t -> smatched (N.of_nat j) t = true ->
+    In (Put (KTxHash (t_id t)) (VInputs (t_inputs t))) (append_ops st0 b).
+  Proof.
+    intros j t H M. apply in_append_ops. left. exists j, t. split; auto.
+    unfold tx_ops. rewrite !in_app_iff. right. right. rewrite tx_matched_block, M; auto. left. auto.
+  Qed.
+  Lemma append_ops_header : In (Put (hdr_key b) (hdr_val b)) (append_ops st0 b).
+  Proof. apply in_append_ops. right. symmetry. apply header_op_ok. Qed.
+
+  Lemma consumed_unique : forall pre t post pre' t' post' op c c',
+    b_txs b = pre ++ t :: post -> b_txs b = pre' ++ t' :: post' ->
+    In op (tx_ins (N.of_nat (length pre)) t) -> In op (tx_ins (N.of_nat (length pre')) t') ->
+    lookup_cell (PL bn L0 T0 pre) op = Some c -> lookup_cell (PL bn L0 T0 pre') op = Some c' -> c = c'.
+  Proof.
+    assert (W : forall pre t post pre' t' post' op c',
+      b_txs b = pre ++ t :: post -> b_txs b = pre' ++ t' :: post' ->
+      In op (tx_ins (N.of_nat (length pre)) t) ->
+      lookup_cell (PL bn L0 T0 pre') op = Some c' -> (length pre < length pre')%nat -> False).
+    { intros pre t post pre' t' post' op c' E E' Hop Hc' Hlt.
+      pose proof (prefix_facts pre' (t' :: post') E') as SF. apply lookup_some in Hc'. destruct Hc' as [Hc' <-].
+      apply (sf_unspent _ _ _ _ _ SF c' Hc'). exists (length pre), t. split; auto.
+      assert (nth_error (b_txs b) (length pre) = Some t) by (rewrite E; apply nth_error_app_mid).
+      rewrite E' in H. rewrite nth_error_app1 in H; auto. }
+    intros pre t post pre' t' post' op c c' E E' Hop Hop' Hc Hc'.
+    destruct (Nat.lt_trichotomy (length pre) (length pre')) as [H|[H|H]].
+    - exfalso. eapply (W pre t post pre' t' post'); eauto.
+    - assert (pre = pre').
+      { rewrite E in E'. eapply app_eq_len; eauto. }
+      subst pre'. congruence.
+    - exfalso. eapply (W pre' t' post' pre t post); eauto.
+  Qed.
+End AppendBlock.
+
+Record AuxInv (st : store) (ch : list block) (fl : N) : Prop := {
+  ax_hdr_sound : forall n id f v, get st (KHeader n id f) = Some v ->
+      exists chp B rest, ch = chp ++ B :: rest /\ KHeader n id f = hdr_key B /\ v = hdr_val B;
+  ax_hdr_complete : forall chp B rest, ch = chp ++ B :: rest -> fl <= b_num B ->
+      get st (hdr_key B) = Some (hdr_val B);
+  ax_txhash : forall chp B rest j t, ch = chp ++ B :: rest -> fl <= b_num B ->
+      nth_error (b_txs B) j = Some t -> smatched (N.of_nat j) t = true ->
+      get st (KTxHash (t_id t)) = Some (VInputs (t_inputs t));
+  ax_consumed : forall chp B rest pre t post op c, ch = chp ++ B :: rest -> fl <= b_num B ->
+      b_txs B = pre ++ t :: post -> In op (tx_ins (N.of_nat (length pre)) t) ->
+      lookup_cell (PL (b_num B) (live chp) (txs chp) pre) op = Some c ->
+      get st (KConsumed (b_num B) op) = Some (VCell (lc_bn c) (lc_txi c) (lc_out c)) }.
+
+Record Inv (s : istate) : Prop := {
+  inv_chain : chain_ok (ix_chain s);
+  inv_wf : wf_store (ix_store s);
+  inv_live : LiveInv (ix_store s) (live (ix_chain s)) (txs (ix_chain s));
+  inv_aux : AuxInv (ix_store s) (ix_chain s) (ix_floor s);
+  inv_floor : ix_floor s <= N.pred (N.of_nat (length (ix_chain s))) }.
+
+Lemma get_commit_cases : forall st ops k,
+  (~ In k (map bop_key ops) /\ get (commit st ops) k = get st k) \/
+  (exists o, In o ops /\ bop_key o = k /\ get (commit st ops) k = bop_res o).
+Proof.
+  intros. rewrite get_commit. destruct (last_op ops k) as [r|] eqn:E.
+  - right. apply last_op_in in E. destruct E as [o [H1 [H2 H3]]]. exists o. auto.
+  - left. apply last_op_none_iff in E. auto.
+Qed.
+Lemma get_commit_fun : forall st ops k o, In o ops -> bop_key o = k ->
+  (forall o', In o' ops -> bop_key o' = k -> bop_res o' = bop_res o) ->
+  get (commit st ops) k = bop_res o.
+Proof. intros. rewrite get_commit. erewrite last_op_fun; eauto. Qed.
+Lemma get_commit_other : forall st ops k, ~ In k (map bop_key ops) -> get (commit st ops) k = get st k.
+Proof. intros. rewrite get_commit, last_op_not_in; auto. Qed.
+
+Lemma snoc_decomp : forall {A} (ch : list A) b chp B rest, ch ++ [b] = chp ++ B :: rest ->
+  (rest = [] /\ chp = ch /\ B = b) \/ (exists rest', rest = rest' ++ [b] /\ ch = chp ++ B :: rest').
+Proof.
+  intros A ch b chp B rest E. destruct (exists_last (l := B :: rest)) as [l' [a E']]. discriminate.
+  rewrite E' in E. rewrite app_assoc in E. apply app_inj_tail in E. destruct E as [E1 E2]. subst a.
+  destruct rest as [|x rest].
+  - left. destruct l'; [|destruct l'; discriminate]. inversion E'; subst. rewrite app_nil_r. auto.
+  - right. destruct l' as [|y l']. discriminate. inversion E'; subst y.
+    exists l'. split; auto.
+Qed.
+Lemma decomp_num : forall ch chp B rest, ChainFacts ch -> ch = chp ++ B :: rest ->
+  b_num B = N.of_nat (length chp) /\ (length chp < length ch)%nat.
+Proof.
+  intros ch chp B rest F E. split.
+  - apply (cf_num _ F). rewrite E. apply nth_error_app_mid.
+  - rewrite E, app_length. cbn. lia.
+Qed.
+
+Lemma in_chain_ids : forall ch chp B rest j t, ch = chp ++ B :: rest -> nth_error (b_txs B) j = Some t ->
+  In (t_id t) (chain_tx_ids ch).
+Proof.
+  intros ch chp B rest j t E H. unfold chain_tx_ids. apply in_flat_map. exists B. split.
+  - rewrite E. apply in_or_app. right. left. reflexivity.
+  - apply in_map. eapply nth_error_In; eauto.
+Qed.
+
+(* ---- append without prune preserves the invariant ----------------------------------------------- *)
+Section AppendInv.
+  Variables (s : istate) (b : block).
+  Hypothesis HI : Inv s.
+  Hypothesis HB : block_ok (ix_chain s) b = true.
+  Let st := ix_store s.
+  Let ch := ix_chain s.
+  Let fl := ix_floor s.
+  Let F : ChainFacts ch := chain_facts _ (inv_chain _ HI).
+  Let Hnum : b_num b = N.of_nat (length ch) := proj1 (block_ok_parts _ _ HB).
+  Let cND : NoDup (map lc_op (live ch)) := cf_nd _ F.
+  Let cid : forall c, In c (live ch) -> In (fst (lc_op c)) (chain_tx_ids ch) := cf_id _ F.
+  Let cTND : NoDup (txs ch) := cf_tnd _ F.
+  Let cPOK : pre_ok (b_num b) (live ch) (chain_tx_ids ch) (b_txs b) := proj2 (proj2 (block_ok_parts _ _ HB)).
+  Let cLI : LiveInv st (live ch) (txs ch) := inv_live _ HI.
+  Lemma cbn_ : forall c, In c (live ch) -> lc_bn c < b_num b.
+  Proof. intros c H. rewrite Hnum. apply (cf_bn _ F). auto. Qed.
+  Lemma cTbn : forall r, In r (txs ch) -> tr_bn (snd r) < b_num b.
+  Proof. intros r H. rewrite Hnum. apply (cf_tbn _ F). auto. Qed.
+  Let ops := append_ops st b.
+  Let st' := append_noprune st b.
+
+  Lemma A_cls : forall o, In o ops -> live_key (bop_key o) = false ->
+    (exists pre t post op c, b_txs b = pre ++ t :: post /\ In op (tx_ins (N.of_nat (length pre)) t) /\
+        lookup_cell (PL (b_num b) (live ch) (txs ch) pre) op = Some c /\
+        o = Put (KConsumed (b_num b) op) (VCell (lc_bn c) (lc_txi c) (lc_out c))) \/
+    (exists j t, nth_error (b_txs b) j = Some t /\ smatched (N.of_nat j) t = true /\
+        o = Put (KTxHash (t_id t)) (VInputs (t_inputs t))) \/
+    o = Put (hdr_key b) (hdr_val b).
+  Proof.
+    intros o H1 H2. pose proof cbn_. pose proof cTbn.
+    eapply (append_ops_aux st b (live ch) (txs ch) (chain_tx_ids ch)); eauto.
+  Qed.
+
+  Lemma inv_append_live : LiveInv st' (live (ch ++ [b])) (txs (ch ++ [b])).
+  Proof.
+    rewrite live_snoc, txs_snoc. pose proof cbn_. pose proof cTbn.
+    eapply (live_append_noprune st b (live ch) (txs ch) (chain_tx_ids ch)); eauto.
+  Qed.
+
+  Lemma inv_append_aux : AuxInv st' (ch ++ [b]) fl.
+  Proof.
+    pose proof cbn_ as Hbn. pose proof cTbn as HTbn. constructor.
+    - intros n id f v G. unfold st', append_noprune in G. fold ops in G.
+      destruct (get_commit_cases st ops (KHeader n id f)) as [[_ E]|[o [H1 [H2 E]]]]; rewrite E in G.
+      + apply (ax_hdr_sound _ _ _ (inv_aux _ HI)) in G. destruct G as [chp [B [rest [G1 G2]]]].
+        exists chp, B, (rest ++ [b]). split; auto. fold ch in G1. rewrite G1, <- app_assoc. reflexivity.
+      + destruct (A_cls o H1) as [[pre [t [post [op [c [_ [_ [_ ->]]]]]]]]|[[j [t [_ [_ ->]]]]| ->]];
+          [rewrite H2; reflexivity| | |]; try discriminate.
+        exists ch, b, []. cbn [bop_key bop_res] in *. split; auto. split; congruence.
+    - intros chp B rest E Hfl. apply snoc_decomp in E. destruct E as [[-> [-> ->]]|[rest' [-> E]]].
+      + unfold st', append_noprune. fold ops.
+        rewrite (get_commit_fun st ops (hdr_key b) (Put (hdr_key b) (hdr_val b))); auto.
+        * eapply (append_ops_header st b (live ch) (txs ch) (chain_tx_ids ch)); eauto.
+        * intros o' H1 H2.
+          destruct (A_cls o' H1) as [[pre [t [post [op [c [_ [_ [_ ->]]]]]]]]|[[j [t [_ [_ ->]]]]| ->]];
+            [rewrite H2; reflexivity| | |]; try discriminate. reflexivity.
+      + unfold st', append_noprune. fold ops. rewrite get_commit_other.
+        * eapply (ax_hdr_complete _ _ _ (inv_aux _ HI)); eauto.
+        * intro HIn. apply in_map_iff in HIn. destruct HIn as [o [H2 H1]].
+          destruct (A_cls o H1) as [[pre [t [post [op [c [_ [_ [_ ->]]]]]]]]|[[j [t [_ [_ ->]]]]| ->]];
+            [rewrite H2; reflexivity| | |]; try discriminate.
+          cbn [bop_key] in H2. inversion H2. destruct (decomp_num ch chp B rest' F E). lia.
+    - intros chp B rest j t E Hfl Hj Hm. apply snoc_decomp in E. destruct E as [[-> [-> ->]]|[rest' [-> E]]].
+      + unfold st', append_noprune. fold ops.
+        rewrite (get_commit_fun st ops (KTxHash (t_id t)) (Put (KTxHash (t_id t)) (VInputs (t_inputs t)))); auto.
+        * eapply (append_ops_txhash st b (live ch) (txs ch) (chain_tx_ids ch)); eauto.
+        * intros o' H1 H2.
+          destruct (A_cls o' H1) as [[pre [t' [post [op [c [_ [_ [_ ->]]]]]]]]|[[j' [t' [G1 [_ ->]]]]| ->]];
+            [rewrite H2; reflexivity| | |]; try discriminate.
+          cbn [bop_key bop_res] in *. inversion H2. destruct cPOK as [_ [ND _]].
+          assert (t' = t).
+          { apply (nodup_map_inj_in t_id (b_txs b)); auto; eapply nth_error_In; eauto. }
+          subst; reflexivity.
+      + unfold st', append_noprune. fold ops. rewrite get_commit_other.
+        * eapply (ax_txhash _ _ _ (inv_aux _ HI)); eauto.
+        * intro HIn. apply in_map_iff in HIn. destruct HIn as [o [H2 H1]].
+          destruct (A_cls o H1) as [[pre [t' [post [op [c [_ [_ [_ ->]]]]]]]]|[[j' [t' [G1 [_ ->]]]]| ->]];
+            [rewrite H2; reflexivity| | |]; try discriminate.
+          cbn [bop_key] in H2. inversion H2. destruct cPOK as [_ [_ Fr]]. apply (Fr t').
+          eapply nth_error_In; eauto. rewrite H0. eapply in_chain_ids; eauto.
+    - intros chp B rest pre t post op c E Hfl Et Hop Hc. apply snoc_decomp in E.
+      destruct E as [[-> [-> ->]]|[rest' [-> E]]].
+      + unfold st', append_noprune. fold ops.
+        rewrite (get_commit_fun st ops (KConsumed (b_num b) op)
+                   (Put (KConsumed (b_num b) op) (VCell (lc_bn c) (lc_txi c) (lc_out c)))); auto.
+        * eapply (append_ops_consumed st b (live ch) (txs ch) (chain_tx_ids ch)); eauto.
+        * intros o' H1 H2.
+          destruct (A_cls o' H1) as [[pre' [t' [post' [op' [c' [G1 [G2 [G3 ->]]]]]]]]|[[j' [t' [G1 [_ ->]]]]| ->]];
+            [rewrite H2; reflexivity| | |]; try discriminate.
+          cbn [bop_key bop_res] in *. inversion H2. subst op'.
+          assert (c' = c).
+          { eapply (consumed_unique b (live ch) (txs ch) (chain_tx_ids ch)) with (pre := pre') (t := t') (post := post') (pre' := pre) (t' := t) (post' := post) (op := op); eauto. }
+          subst; reflexivity.
+      + unfold st', append_noprune. fold ops. rewrite get_commit_other.
+        * eapply (ax_consumed _ _ _ (inv_aux _ HI)); eauto.
+        * intro HIn. apply in_map_iff in HIn. destruct HIn as [o [H2 H1]].
+          destruct (A_cls o H1) as [[pre' [t' [post' [op' [c' [G1 [G2 [G3 ->]]]]]]]]|[[j' [t' [G1 [_ ->]]]]| ->]];
+            [rewrite H2; reflexivity| | |]; try discriminate.
+          cbn [bop_key] in H2. inversion H2. destruct (decomp_num ch chp B rest' F E). lia.
+  Qed.
+
+  Lemma inv_append_noprune : Inv (mkIx st' (ch ++ [b]) fl).
+  Proof.
+    constructor; cbn [ix_store ix_chain ix_floor].
+    - constructor; auto. apply (inv_chain _ HI).
+    - apply wf_commit. apply (inv_wf _ HI).
+    - apply inv_append_live.
+    - apply inv_append_aux.
+    - pose proof (inv_floor _ HI) as H. fold fl ch in H. rewrite app_length. cbn [length]. lia.
+  Qed.
+End AppendInv.
+
+(* ---- tip ------------------------------------------------------------------------------------------ *)
+Lemma chain_tip_snoc : forall ch b, chain_tip (ch ++ [b]) = Some (b_num b, b_id b).
+Proof. intros. unfold chain_tip. rewrite rev_unit. reflexivity. Qed.
+
+Lemma inv_tip_entry : forall s ch0 bl, Inv s -> ix_chain s = ch0 ++ [bl] ->
+  tip_entry (ix_store s) None = Some (b_num bl, b_id bl, sflag bl, smatched_txs bl).
+Proof.
+  intros s ch0 bl HI E. pose proof (chain_facts _ (inv_chain _ HI)) as F.
+  pose proof (inv_aux _ HI) as AX. pose proof (inv_floor _ HI) as FL.
+  destruct (decomp_num _ ch0 bl [] F E) as [Hn _].
+  apply tip_entry_max; auto.
+  - intros n' i' f' v' HIn. apply in_get in HIn; [|apply (inv_wf _ HI)].
+    apply (ax_hdr_sound _ _ _ AX) in HIn. destruct HIn as [chp [B [rest [G1 [G2 G3]]]]].
+    rewrite E in G1. apply snoc_decomp in G1. destruct G1 as [[-> [-> ->]]|[rest' [-> G1]]].
+    + left. inversion G2. subst. reflexivity.
+    + right. inversion G2. subst n' i' f'. destruct (decomp_num _ chp B rest' (chain_facts _ (chain_ok_removelast _ (inv_chain _ HI)))) as [Hn' Hl].
+      { rewrite E, removelast_last. exact G1. }
+      rewrite E, removelast_last in Hl. unfold hdr_lt.
+      assert (b_num B <? b_num bl = true) as ->; [|reflexivity]. apply N.ltb_lt. lia.
+  - right. exists (hdr_val bl). split; [|reflexivity]. apply get_in.
+    apply (ax_hdr_complete _ _ _ AX ch0 bl []); auto. rewrite E, app_length in FL. cbn [length] in FL. lia.
+Qed.
+
+Lemma inv_tip : forall s, Inv s -> tip (ix_store s) = chain_tip (ix_chain s).
+Proof.
+  intros s HI. destruct (ix_chain s) as [|x l] eqn:E using rev_ind.
+  - unfold tip. rewrite tip_entry_none. reflexivity.
+    intros n i f v HIn. apply in_get in HIn; [|apply (inv_wf _ HI)].
+    apply (ax_hdr_sound _ _ _ (inv_aux _ HI)) in HIn. destruct HIn as [chp [B [rest [G1 _]]]].
+    rewrite E in G1. destruct chp; discriminate.
+  - unfold tip. rewrite (inv_tip_entry s l x HI E). rewrite chain_tip_snoc. reflexivity.
+Qed.
+
+(* ---- prune ------------------------------------------------------------------------------------------ *)
+Lemma prune_ops_cls : forall st keep o, In o (prune_ops st keep) ->
+  exists tipn tid, tip st = Some (tipn, tid) /\ keep + 1 < tipn /\
+    ((exists bn op, o = Del (KConsumed bn op) /\ bn < tipn - (keep + 1)) \/
+     (exists bn id f v x, In (KHeader bn id f, v) st /\ bn <= tipn - (keep + 1) /\ In x (vtxs v) /\
+                          o = Del (KTxHash (fst (fst x)))) \/
+     (exists bn id f v, In (KHeader bn id f, v) st /\ bn <= tipn - (keep + 1) /\ o = Del (KHeader bn id f))).
+Proof.
+  intros st keep o H. unfold prune_ops in H. destruct (tip st) as [[tipn tid]|]; [|contradiction].
+  destruct (N.ltb_spec (keep + 1) tipn) as [Hlt|]; [|contradiction].
+  exists tipn, tid. split; auto. split; auto. apply in_app_or in H. destruct H as [H|H].
+  - left. apply in_map_iff in H. destruct H as [[bn k] [<- H]]. unfold consumed_below in H.
+    apply in_flat_map in H. destruct H as [[k' v] [H1 H2]]. cbn [fst] in H2.
+    destruct k'; try contradiction. destruct (N.ltb_spec bn0 (tipn - (keep + 1))); [|contradiction].
+    destruct H2 as [H2|[]]. inversion H2; subst. eexists _, _. split; [reflexivity|auto].
+  - destruct (min_list _) as [lo|]; [|contradiction]. apply in_flat_map in H. destruct H as [[k l] [H1 H2]].
+    unfold headers_between in H1. apply in_flat_map in H1. destruct H1 as [[k' v] [H1 H3]].
+    destruct k'; try contradiction.
+    destruct (lo <=? bn); [|contradiction]. destruct (N.leb_spec bn (tipn - (keep + 1))); [|contradiction].
+    cbn [andb] in H3. destruct H3 as [H3|[]]. inversion H3; subst k l. fold (vtxs v) in *.
+    apply in_app_or in H2. cbn [fst snd] in H2. destruct H2 as [H2|[H2|[]]].
+    + right. left. apply in_map_iff in H2. destruct H2 as [x [<- H2]]. exists bn, id, flt, v, x. auto.
+    + right. right. exists bn, id, flt, v. auto.
+Qed.
+
+Lemma prune_ops_dels : forall st keep o, In o (prune_ops st keep) -> bop_res o = None /\ live_key (bop_key o) = false.
+Proof.
+  intros st keep o H. apply prune_ops_cls in H.
+  destruct H as [tipn [tid [_ [_ [[bn [op [-> _]]]|[[bn [id [f [v [x [_ [_ [_ ->]]]]]]]]|[bn [id [f [v [_ [_ ->]]]]]]]]]]]]; auto.
+Qed.
+
+Lemma get_prune : forall st keep k v, get (prune st keep) k = Some v ->
+  get st k = Some v /\ ~ In k (map bop_key (prune_ops st keep)).
+Proof.
+  intros st keep k v H. unfold prune in H.
+  destruct (get_commit_cases st (prune_ops st keep) k) as [[H1 E]|[o [H1 [H2 E]]]]; rewrite E in H.
+  - auto.
+  - apply prune_ops_dels in H1. destruct H1 as [H1 _]. congruence.
+Qed.
+
+Lemma in_smatched_txs : forall B x, In x (smatched_txs B) ->
+  exists j t, nth_error (b_txs B) j = Some t /\ smatched (N.of_nat j) t = true /\ fst (fst x) = t_id t.
+Proof.
+  intros B x H. unfold smatched_txs in H. apply in_concat_mapi in H. destruct H as [j [t [H1 H2]]].
+  rewrite N.add_0_l in H2. destruct (smatched (N.of_nat j) t) eqn:E; [|contradiction].
+  destruct H2 as [<-|[]]. exists j, t. auto.
+Qed.
+
+Lemma nodup_flat_map_pos : forall {A B} (f : A -> list B) l a x r a' x' r' y,
+  NoDup (flat_map f l) -> l = a ++ x :: r -> l = a' ++ x' :: r' -> In y (f x) -> In y (f x') ->
+  length a = length a'.
+Proof.
+  intros A B f l a. revert l. induction a as [|z a IH]; intros l x r a' x' r' y ND E E' Hy Hy'.
+  - destruct a' as [|z' a']; auto. exfalso. subst l. cbn [app] in E'. inversion E'; subst z'.
+    cbn [flat_map] in ND. apply NoDup_app_inv in ND. destruct ND as [_ [_ D]]. apply (D y Hy).
+    rewrite H1. apply in_flat_map. exists x'. split; auto. apply in_or_app. right. left. auto.
+  - destruct a' as [|z' a'].
+    + exfalso. subst l. cbn [app] in E'. inversion E'; subst z.
+      cbn [flat_map] in ND. apply NoDup_app_inv in ND. destruct ND as [_ [_ D]]. apply (D y Hy').
+      apply in_flat_map. exists x. split; auto. apply in_or_app. right. left. auto.
+    + cbn [length]. f_equal. subst l. cbn [app] in E'. inversion E'; subst z'.
+      cbn [flat_map app] in ND. apply NoDup_app_inv in ND. destruct ND as [_ [ND _]].
+      eapply (IH (a ++ x :: r)); eauto.
+Qed.
+
+Lemma chain_tx_unique : forall ch chp B rest chp' B' rest' j t j' t', ChainFacts ch ->
+  ch = chp ++ B :: rest -> ch = chp' ++ B' :: rest' ->
+  nth_error (b_txs B) j = Some t -> nth_error (b_txs B') j' = Some t' -> t_id t = t_id t' ->
+  b_num B = b_num B'.
+Proof.
+  intros ch chp B rest chp' B' rest' j t j' t' F E E' H H' Eid.
+  destruct (decomp_num _ _ _ _ F E) as [-> _]. destruct (decomp_num _ _ _ _ F E') as [-> _]. f_equal.
+  eapply (nodup_flat_map_pos (fun b => map t_id (b_txs b)) ch) with (y := t_id t); eauto.
+  - apply (cf_ids_nd _ F).
+  - apply in_map. eapply nth_error_In; eauto.
+  - rewrite Eid. apply in_map. eapply nth_error_In; eauto.
+Qed.
+
+Lemma inv_prune : forall s keep ch0 bl, Inv s -> ix_chain s = ch0 ++ [bl] ->
+  Inv (mkIx (prune (ix_store s) keep) (ix_chain s)
+            (if keep + 1 <? b_num bl then N.max (ix_floor s) (b_num bl - keep) else ix_floor s)).
+Proof.
+  intros s keep ch0 bl HI E. pose proof (chain_facts _ (inv_chain _ HI)) as F.
+  pose proof (inv_aux _ HI) as AX. pose proof (inv_floor _ HI) as FL.
+  pose proof (inv_tip s HI) as TIP. rewrite E, chain_tip_snoc in TIP.
+  destruct (decomp_num _ ch0 bl [] F E) as [Hn _].
+  set (fl' := if keep + 1 <? b_num bl then N.max (ix_floor s) (b_num bl - keep) else ix_floor s).
+  assert (Hfl : ix_floor s <= fl') by (unfold fl'; destruct (keep + 1 <? b_num bl); lia).
+  assert (CLS : forall o, In o (prune_ops (ix_store s) keep) ->
+     keep + 1 < b_num bl /\
+     ((exists bn op, o = Del (KConsumed bn op) /\ bn < fl' - 1) \/
+      (exists chp B rest x, ix_chain s = chp ++ B :: rest /\ b_num B < fl' /\ In x (smatched_txs B) /\
+                            o = Del (KTxHash (fst (fst x)))) \/
+      (exists bn id f, bn < fl' /\ o = Del (KHeader bn id f)))).
+  { intros o Ho. apply prune_ops_cls in Ho. destruct Ho as [tipn [tid [H1 [H2 H3]]]].
+    rewrite TIP in H1. inversion H1; subst tipn tid. split; auto.
+    assert (Efl : fl' = N.max (ix_floor s) (b_num bl - keep)).
+    { unfold fl'. apply N.ltb_lt in H2. rewrite H2. reflexivity. }
+    destruct H3 as [[bn [op [-> H3]]]|[[bn [id [f [v [x [G1 [G2 [G3 ->]]]]]]]]|[bn [id [f [v [G1 [G2 ->]]]]]]]].
+    - left. exists bn, op. split; auto. lia.
+    - right. left. apply in_get in G1; [|apply (inv_wf _ HI)]. apply (ax_hdr_sound _ _ _ AX) in G1.
+      destruct G1 as [chp [B [rest [G4 [G5 ->]]]]]. inversion G5; subst bn id f.
+      exists chp, B, rest, x. split; auto. split; auto. lia.
+    - right. right. exists bn, id, f. split; auto. lia. }
+  constructor; cbn [ix_store ix_chain ix_floor]; fold fl'.
+  - apply (inv_chain _ HI).
+  - apply wf_commit. apply (inv_wf _ HI).
+  - apply live_inv_aux_ops. apply (inv_live _ HI). intros o Ho. apply prune_ops_dels in Ho. tauto.
+  - constructor.
+    + intros n id f v G. apply get_prune in G. destruct G as [G _]. apply (ax_hdr_sound _ _ _ AX) in G. exact G.
+    + intros chp B rest EB HB. unfold prune. rewrite get_commit_other.
+      * apply (ax_hdr_complete _ _ _ AX chp B rest); auto. lia.
+      * intro HIn. apply in_map_iff in HIn. destruct HIn as [o [Ek Ho]]. apply CLS in Ho.
+        destruct Ho as [_ [[bn [op [-> _]]]|[[chp' [B' [rest' [x [_ [_ [_ ->]]]]]]]|[bn [id [f [G ->]]]]]]]; try discriminate.
+        cbn [bop_key] in Ek. inversion Ek. lia.
+    + intros chp B rest j t EB HB Hj Hm. unfold prune. rewrite get_commit_other.
+      * apply (ax_txhash _ _ _ AX chp B rest j t); auto. lia.
+      * intro HIn. apply in_map_iff in HIn. destruct HIn as [o [Ek Ho]]. apply CLS in Ho.
+        destruct Ho as [_ [[bn [op [-> _]]]|[[chp' [B' [rest' [x [G1 [G2 [G3 ->]]]]]]]|[bn [id [f [G ->]]]]]]]; try discriminate.
+        cbn [bop_key] in Ek. inversion Ek as [Eid]. apply in_smatched_txs in G3.
+        destruct G3 as [j' [t' [G4 [_ G5]]]]. rewrite G5 in Eid.
+        assert (b_num B' = b_num B) by (eapply chain_tx_unique; eauto). lia.
+    + intros chp B rest pre t post op c EB HB Et Hop Hc. unfold prune. rewrite get_commit_other.
+      * apply (ax_consumed _ _ _ AX chp B rest pre t post op c); auto. lia.
+      * intro HIn. apply in_map_iff in HIn. destruct HIn as [o [Ek Ho]]. apply CLS in Ho.
+        destruct Ho as [_ [[bn [op' [-> G]]]|[[chp' [B' [rest' [x [_ [_ [_ ->]]]]]]]|[bn [id [f [G ->]]]]]]]; try discriminate.
+        cbn [bop_key] in Ek. inversion Ek. lia.
+  - unfold fl'. rewrite E, app_length in *. cbn [length] in *. destruct (keep + 1 <? b_num bl); lia.
+Qed.
+
+(* ---- append ---------------------------------------------------------------------------------------- *)
+Lemma inv_resolves : forall s b pre t post op, Inv s -> block_ok (ix_chain s) b = true ->
+  b_txs b = pre ++ t :: post -> In op (tx_ins (N.of_nat (length pre)) t) ->
+  exists c, lookup_cell (PL (b_num b) (live (ix_chain s)) (txs (ix_chain s)) pre) op = Some c /\
+            resolve (ix_store s) b op = RFound (lc_bn c) (lc_txi c) (lc_out c).
+Proof.
+  intros s b pre t post op HI HB E Hop.
+  pose proof (chain_facts _ (inv_chain _ HI)) as F.
+  pose proof (cf_nd _ F). pose proof (cf_id _ F). pose proof (cf_tnd _ F).
+  pose proof (cbn_ s b HI HB). pose proof (cTbn s b HI HB).
+  pose proof (proj2 (proj2 (block_ok_parts _ _ HB))). pose proof (inv_live _ HI).
+  eapply (prefix_resolves (ix_store s) b (live (ix_chain s)) (txs (ix_chain s)) (chain_tx_ids (ix_chain s))); eauto.
+Qed.
+
+Lemma existsb_false : forall {A} (f : A -> bool) l, (forall x, In x l -> f x = false) -> existsb f l = false.
+Proof.
+  intros A f l H. destruct (existsb f l) eqn:E; auto. apply existsb_exists in E.
+  destruct E as [x [H1 H2]]. rewrite H in H2; auto.
+Qed.
+
+Theorem valid_append_never_panics : forall s b, Inv s -> block_ok (ix_chain s) b = true ->
+  append_panics (ix_store s) b = false.
+Proof.
+  intros s b HI HB. unfold append_panics. apply existsb_false. intros x Hx.
+  apply in_mapi in Hx. destruct Hx as [j [t [H1 ->]]]. rewrite N.add_0_l.
+  apply nth_error_split in H1. destruct H1 as [pre [post [E <-]]].
+  destruct (0 <? N.of_nat (length pre)) eqn:Z; auto. cbn [andb]. apply existsb_false. intros op Hop.
+  destruct (inv_resolves s b pre t post op HI HB E) as [c [_ R]].
+  - unfold tx_ins. rewrite Z. exact Hop.
+  - rewrite R. reflexivity.
+Qed.
+
+Lemma inv_append : forall keep interval s b st', Inv s -> block_ok (ix_chain s) b = true ->
+  append keep interval (ix_store s) b = Some st' ->
+  Inv (mkIx st' (ix_chain s ++ [b]) (floor_after keep interval (ix_floor s) (b_num b))).
+Proof.
+  intros keep interval s b st' HI HB HA. unfold append in HA.
+  rewrite (valid_append_never_panics s b HI HB) in HA. inversion HA; subst st'. clear HA.
+  pose proof (inv_append_noprune s b HI HB) as H1. unfold floor_after.
+  destruct (b_num b mod interval =? 0); cbn [andb]; auto.
+  apply (inv_prune _ keep (ix_chain s) b) in H1; auto.
+Qed.
+
+Lemma op_eq_dec : forall a b : outpoint, {a = b} + {a <> b}.
+Proof. decide equality; apply N.eq_dec. Qed.
+
+(* ---- rollback: the operations of one transaction ------------------------------------------------------ *)
+Lemma in_rb_output_ops : forall st bn txi tid oi out o,
+  stored_output st bn (tid, oi) = Some out ->
+  (In o (rb_output_ops st bn txi tid oi) <->
+   In o (map DelK (cell_kvs (mkLc (tid, oi) bn txi out))) \/
+   In o (map DelK (map trow_kv (out_rows out bn txi oi tid)))).
+Proof.
+  intros st bn txi tid oi out o H. unfold rb_output_ops. rewrite H. unfold opt_ops at 1.
+  unfold cell_kvs, out_rows, opt_ops. cbn [lc_op lc_bn lc_txi lc_out fst snd].
+  destruct (o_type out); cbn [app map In DelK PutKv trow_kv fst snd tr_s tr_bn tr_txi tr_ioi tr_out tr_tx]; intuition.
+Qed.
+
+Lemma in_rb_input_ops : forall st bn txi ii op c tid o,
+  get st (KConsumed bn op) = Some (VCell (lc_bn c) (lc_txi c) (lc_out c)) -> lc_op c = op ->
+  (In o (rb_input_ops st bn txi ii op) <->
+   In o (map PutKv (cell_kvs c)) \/ In o (map DelK (map trow_kv (cell_in_rows c bn txi ii tid)))).
+Proof.
+  intros st bn txi ii op c tid o H E. unfold rb_input_ops. rewrite H. subst op.
+  unfold cell_kvs, cell_in_rows, opt_ops.
+  destruct (o_type (lc_out c)); cbn [app map In DelK PutKv trow_kv fst snd tr_s tr_bn tr_txi tr_ioi tr_out tr_tx]; intuition.
+Qed.
+
+Lemma in_nseq_len : forall {A} (l : list A) oi,
+  In oi (nseq (N.of_nat (length l))) <-> exists j x, nth_error l j = Some x /\ oi = N.of_nat j.
+Proof.
+  intros A l oi. unfold nseq. rewrite Nat2N.id, in_map_iff. split.
+  - intros [j [<- H]]. apply in_seq in H. destruct (nth_error l j) as [x|] eqn:E.
+    + exists j, x. auto.
+    + apply nth_error_None in E. lia.
+  - intros [j [x [H ->]]]. exists j. split; auto. apply in_seq.
+    assert (j < length l)%nat by (apply nth_error_Some; congruence). lia.
+Qed.
+
+Section RollbackTx.
+  Variables (st0 st : store) (b : block) (L0 : list lcell) (T0 : list (bool * trow)) (ids0 : list N).
+  Variables (pre : list tx) (t : tx).
+  Let bn := b_num b.
+  Let i := N.of_nat (length pre).
+  Let L := PL bn L0 T0 pre.
+  Let T := PT bn L0 T0 pre.
+  Hypothesis Hbn : forall c, In c L0 -> lc_bn c < bn.
+  Hypothesis HTbn : forall r, In r T0 -> tr_bn (snd r) < bn.
+  Hypothesis Hid : forall c, In c L0 -> In (fst (lc_op c)) ids0.
+  Hypothesis SF : SeqFacts bn L0 T0 ids0 pre.
+  Hypothesis OK : tx_step_ok bn L0 T0 ids0 pre t.
+  Hypothesis PD : pos_det L.
+  Hypothesis LI : LiveInv st (PL bn L0 T0 (pre ++ [t])) (PT bn L0 T0 (pre ++ [t])).
+  Hypothesis RD_hash : get st0 (KTxHash (t_id t)) = Some (VInputs (t_inputs t)).
+  Hypothesis RD_cons : forall op c, In op (tx_ins i t) -> lookup_cell L op = Some c ->
+      get st0 (KConsumed bn op) = Some (VCell (lc_bn c) (lc_txi c) (lc_out c)).
+  Hypothesis RD_out : forall oj out, nth_error (t_outputs t) oj = Some out ->
+      stored_output st0 bn (t_id t, N.of_nat oj) = Some out.
+
+  Let rops := rb_tx_ops st0 bn (t_id t, N.of_nat (length (t_outputs t)), i).
+
+  Lemma rb_inputs_eq :
+    (if 0 <? i then concat (mapi (rb_input_ops st0 bn i) 0
+                       (match get st0 (KTxHash (t_id t)) with Some (VInputs l) => l | _ => [] end))
+     else []) = concat (mapi (rb_input_ops st0 bn i) 0 (tx_ins i t)).
+  Proof. rewrite RD_hash. unfold tx_ins. destruct (0 <? i); reflexivity. Qed.
+
+  Lemma in_rops : forall o,
+    In o rops <->
+    ((exists c, In c (new_cells bn i t) /\ In o (map DelK (cell_kvs c))) \/
+     (exists r, In r (rows_tx bn L i t) /\ o = DelK (trow_kv r)) \/
+     (exists c, Cs b L0 T0 pre t c /\ In o (map PutKv (cell_kvs c))) \/
+     o = Del (KTxHash (t_id t))).
+  Proof.
+    intro o. unfold rops, rb_tx_ops. rewrite rb_inputs_eq. rewrite !in_app_iff. split.
+    - intros [H|[H|H]].
+      + apply in_concat in H. destruct H as [l [H1 H2]]. apply in_map_iff in H1. destruct H1 as [oi [<- H1]].
+        apply in_nseq_len in H1. destruct H1 as [j [out [H1 ->]]].
+        rewrite (in_rb_output_ops st0 bn i (t_id t) (N.of_nat j) out o (RD_out j out H1)) in H2.
+        destruct H2 as [H2|H2].
+        * left. eexists. split; [|exact H2]. apply in_new_cells. eauto.
+        * right. left. apply in_map_iff in H2. destruct H2 as [kv [<- H2]]. apply in_map_iff in H2.
+          destruct H2 as [r [<- H2]]. exists r. split; auto. apply in_rows_tx. right. eauto.
+      + apply in_concat_mapi in H. destruct H as [ii [op [H1 H2]]]. rewrite N.add_0_l in H2.
+        destruct OK as [R _]. destruct (R op (nth_error_In _ _ H1)) as [c Hc].
+        pose proof (lookup_some _ _ _ Hc) as [_ Hop].
+        rewrite (in_rb_input_ops st0 bn i (N.of_nat ii) op c (t_id t) o (RD_cons op c (nth_error_In _ _ H1) Hc) Hop) in H2.
+        destruct H2 as [H2|H2].
+        * right. right. left. exists c. split; auto. exists ii, op. auto.
+        * right. left. apply in_map_iff in H2. destruct H2 as [kv [<- H2]]. apply in_map_iff in H2.
+          destruct H2 as [r [<- H2]]. exists r. split; auto. apply in_rows_tx. left. exists ii, op, c. auto.
+      + destruct H as [<-|[]]. auto.
+    - intros [[c [H1 H2]]|[[r [H1 ->]]|[[c [[ii [op [H1 H3]]] H2]]| ->]]].
+      + left. apply in_new_cells in H1. destruct H1 as [oj [out [H1 ->]]].
+        apply in_concat. eexists. split. apply in_map. apply in_nseq_len. eauto.
+        apply (in_rb_output_ops st0 bn i (t_id t) (N.of_nat oj) out _ (RD_out oj out H1)). auto.
+      + apply in_rows_tx in H1. destruct H1 as [[ii [op [c [H1 [H3 H4]]]]]|[oj [out [H1 H3]]]].
+        * right. left. apply in_concat_mapi. exists ii, op. split; auto. rewrite N.add_0_l.
+          pose proof (lookup_some _ _ _ H3) as [_ Hop].
+          apply (in_rb_input_ops st0 bn i (N.of_nat ii) op c (t_id t) _ (RD_cons op c (nth_error_In _ _ H1) H3) Hop).
+          right. apply in_map. apply in_map. auto.
+        * left. apply in_concat. eexists. split. apply in_map. apply in_nseq_len. eauto.
+          apply (in_rb_output_ops st0 bn i (t_id t) (N.of_nat oj) out _ (RD_out oj out H1)).
+          right. apply in_map. apply in_map. auto.
+      + right. left. apply in_concat_mapi. exists ii, op. split; auto. rewrite N.add_0_l.
+        pose proof (lookup_some _ _ _ H3) as [_ Hop].
+        apply (in_rb_input_ops st0 bn i (N.of_nat ii) op c (t_id t) _ (RD_cons op c (nth_error_In _ _ H1) H3) Hop).
+        auto.
+      + right. right. left. reflexivity.
+  Qed.
+  Lemma key_det_L : forall c c' k v v', In c L -> In c' L ->
+    In (k, v) (cell_kvs c) -> In (k, v') (cell_kvs c') -> c = c'.
+  Proof.
+    intros c c' k v v' H H' Hk Hk'. apply cell_kvs_key_info in Hk. apply cell_kvs_key_info in Hk'.
+    destruct k; try contradiction.
+    - apply (nodup_map_inj_in lc_op L); auto. apply (sf_nd _ _ _ _ _ SF). congruence.
+    - apply PD; auto; destruct Hk as [? [? ?]], Hk' as [? [? ?]]; congruence.
+    - apply PD; auto; destruct Hk as [? [? ?]], Hk' as [? [? ?]]; congruence.
+  Qed.
+
+  Lemma rops_cls : forall o, In o rops -> live_key (bop_key o) = true ->
+    (exists c kv, In c (new_cells bn i t) /\ In kv (cell_kvs c) /\ o = Del (fst kv)) \/
+    (exists r, In r (rows_tx bn L i t) /\ o = Del (fst (trow_kv r))) \/
+    (exists c kv, Cs b L0 T0 pre t c /\ In kv (cell_kvs c) /\ o = Put (fst kv) (snd kv)).
+  Proof.
+    intros o H Hl. apply in_rops in H. destruct H as [[c [H1 H2]]|[[r [H1 ->]]|[[c [H1 H2]]| ->]]].
+    - left. apply in_map_iff in H2. destruct H2 as [kv [<- H2]]. exists c, kv. auto.
+    - right. left. exists r. auto.
+    - right. right. apply in_map_iff in H2. destruct H2 as [kv [<- H2]]. exists c, kv. auto.
+    - discriminate.
+  Qed.
+  Lemma rops_DN : forall c kv, In c (new_cells bn i t) -> In kv (cell_kvs c) -> In (Del (fst kv)) rops.
+  Proof. intros c kv H1 H2. apply in_rops. left. exists c. split; auto. apply in_map_iff. exists kv. auto. Qed.
+  Lemma rops_DR : forall r, In r (rows_tx bn L i t) -> In (Del (fst (trow_kv r))) rops.
+  Proof. intros r H. apply in_rops. right. left. exists r. auto. Qed.
+  Lemma rops_PC : forall c kv, Cs b L0 T0 pre t c -> In kv (cell_kvs c) -> In (Put (fst kv) (snd kv)) rops.
+  Proof. intros c kv H1 H2. apply in_rops. right. right. left. exists c. split; auto. apply in_map_iff. exists kv. auto. Qed.
+
+  Lemma live_rollback_tx : LiveInv (commit st rops) L T.
+  Proof.
+    pose proof (dis_old_new b L0 T0 ids0 pre t Hbn Hid SF OK) as DON.
+    pose proof (dis_rows b L0 T0 ids0 pre t HTbn SF) as DRW.
+    apply live_inv_step with (L := PL bn L0 T0 (pre ++ [t])) (T := PT bn L0 T0 (pre ++ [t])); auto.
+    - intros k o o' Hk Ho Ho' Ek Ek'.
+      destruct (rops_cls o Ho) as [[c [kv [HC [Hkv ->]]]]|[[r [Hr ->]]|[c [kv [HC [Hkv ->]]]]]]; [rewrite Ek; auto| | |];
+      (destruct (rops_cls o' Ho') as [[c' [kv' [HC' [Hkv' ->]]]]|[[r' [Hr' ->]]|[c' [kv' [HC' [Hkv' ->]]]]]]; [rewrite Ek'; auto| | |]);
+      cbn [bop_key bop_res] in *; try reflexivity; try destruct kv as [k1 v1]; try destruct kv' as [k2 v2];
+        cbn [fst snd] in *; subst.
+      + exfalso. apply Cs_in in HC'. eapply DON; [apply HC'|apply HC|apply Hkv'|apply Hkv].
+      + exfalso. eapply cell_kvs_not_trow; eauto.
+      + exfalso. apply Cs_in in HC. eapply DON; [apply HC|apply HC'|apply Hkv|apply Hkv'].
+      + exfalso. eapply cell_kvs_not_trow; eauto.
+      + f_equal. apply Cs_in in HC. apply Cs_in in HC'. assert (c = c') by (eapply key_det_L; eauto; tauto).
+        subst c'. eapply cell_kvs_fun; eauto.
+    - intros k v Hk. rewrite PL_snoc, PT_snoc. fold i L T. unfold live_tx. rewrite !in_live_kvs. split.
+      + intros [[c [Hc Hkv]]|[r [Er Hr]]].
+        * destruct (in_dec op_eq_dec (lc_op c) (tx_ins i t)) as [D|D].
+          -- left. apply (rops_PC c (k, v)); auto. eapply in_Cs; eauto.
+          -- right. split.
+             ++ intro HI. apply in_map_iff in HI. destruct HI as [o [Eo Ho]].
+                destruct (rops_cls o Ho) as [[c' [kv [HC [Hkv' ->]]]]|[[r [Hr ->]]|[c' [kv [HC [Hkv' ->]]]]]];
+                  [rewrite Eo; auto| | |]; cbn [bop_key] in Eo; try destruct kv as [k1 v1]; cbn [fst] in Eo; subst.
+                ** eapply DON; [apply Hc|apply HC|apply Hkv|apply Hkv'].
+                ** eapply cell_kvs_not_trow; eauto.
+                ** apply Cs_in in HC. destruct HC as [HC1 HC2].
+                   assert (c = c') by (eapply key_det_L; eauto). subst c'. contradiction.
+             ++ left. exists c. split; auto. apply in_or_app. left. apply in_fold_spend. auto.
+        * right. split.
+          -- intro HI. apply in_map_iff in HI. destruct HI as [o [Eo Ho]].
+             assert (Ek : fst (trow_kv r) = k) by (rewrite Er; reflexivity).
+             destruct (rops_cls o Ho) as [[c' [kv [HC [Hkv' ->]]]]|[[r' [Hr' ->]]|[c' [kv [HC [Hkv' ->]]]]]];
+               [rewrite Eo; auto| | |]; cbn [bop_key] in Eo; try destruct kv as [k1 v1]; cbn [fst] in Eo; subst.
+             ++ eapply cell_kvs_not_trow; eauto.
+             ++ eapply DRW; eauto.
+             ++ eapply cell_kvs_not_trow; eauto.
+          -- right. exists r. split; auto. apply in_or_app. auto.
+      + intros [HP|[Hn HI]].
+        * destruct (rops_cls _ HP Hk) as [[c' [kv [HC [Hkv' E]]]]|[[r [Hr E]]|[c' [kv [HC [Hkv' E]]]]]]; try discriminate.
+          injection E as E1 E2. left. exists c'. split. apply Cs_in in HC. tauto.
+          rewrite (surjective_pairing kv) in Hkv'. congruence.
+        * destruct HI as [[c [Hc Hkv]]|[r [Er Hr]]].
+          -- apply in_app_or in Hc. destruct Hc as [Hc|Hc].
+             ++ apply in_fold_spend in Hc. left. exists c. tauto.
+             ++ exfalso. apply Hn. apply in_map_iff. exists (Del k). split; auto. apply (rops_DN c (k, v)); auto.
+          -- apply in_app_or in Hr. destruct Hr as [Hr|Hr].
+             ++ right. eauto.
+             ++ exfalso. apply Hn. apply in_map_iff. exists (Del k). split; auto.
+                pose proof (rops_DR r Hr) as P. rewrite Er in P. exact P.
+  Qed.
+End RollbackTx.
+
+(* ---- rollback: all transactions of the tip block ------------------------------------------------------- *)
+Lemma concat_map_rev_mapi : forall {A B C} (m : N -> A -> bool) (e : N -> A -> B) (f : B -> list C) l k,
+  concat (map f (rev (concat (mapi (fun i x => if m i x then [e i x] else []) k l)))) =
+  concat (rev (mapi (fun i x => if m i x then f (e i x) else []) k l)).
+Proof.
+  intros A B C m e f l. induction l as [|x l IH] using rev_ind; intro k. reflexivity.
+  rewrite !mapi_app, concat_app, !rev_app_distr, map_app, !concat_app, IH. cbn [mapi concat rev app].
+  f_equal. destruct (m (k + N.of_nat (length l)) x); reflexivity.
+Qed.
+
+Section RollbackBlock.
+  Variables (st0 : store) (b : block) (L0 : list lcell) (T0 : list (bool * trow)) (ids0 : list N).
+  Let bn := b_num b.
+  Hypothesis HND : NoDup (map lc_op L0).
+  Hypothesis Hbn : forall c, In c L0 -> lc_bn c < bn.
+  Hypothesis Hid : forall c, In c L0 -> In (fst (lc_op c)) ids0.
+  Hypothesis HTbn : forall r, In r T0 -> tr_bn (snd r) < bn.
+  Hypothesis HTND : NoDup T0.
+  Hypothesis Hpos : pos_det L0.
+  Hypothesis POK : pre_ok bn L0 ids0 (b_txs b).
+  Hypothesis LIF : LiveInv st0 (PL bn L0 T0 (b_txs b)) (PT bn L0 T0 (b_txs b)).
+  Hypothesis RDH : forall j t, nth_error (b_txs b) j = Some t -> smatched (N.of_nat j) t = true ->
+      get st0 (KTxHash (t_id t)) = Some (VInputs (t_inputs t)).
+  Hypothesis RDC : forall pre t post op c, b_txs b = pre ++ t :: post ->
+      In op (tx_ins (N.of_nat (length pre)) t) -> lookup_cell (PL bn L0 T0 pre) op = Some c ->
+      get st0 (KConsumed bn op) = Some (VCell (lc_bn c) (lc_txi c) (lc_out c)).
+
+  Definition rb (i : N) (t : tx) : list bop :=
+    if smatched i t then rb_tx_ops st0 bn (t_id t, N.of_nat (length (t_outputs t)), i) else [].
+
+  Lemma rb_prefix_facts : forall pre rest, b_txs b = pre ++ rest -> SeqFacts bn L0 T0 ids0 pre.
+  Proof. intros. eapply (prefix_facts b L0 T0 ids0); eauto. Qed.
+  Lemma rb_prefix_ok : forall pre rest, b_txs b = pre ++ rest -> pre_ok bn L0 ids0 pre.
+  Proof. intros pre rest E. rewrite E in POK. eapply pre_ok_prefix; eauto. Qed.
+  Lemma rb_step_ok : forall pre t rest, b_txs b = pre ++ t :: rest -> tx_step_ok bn L0 T0 ids0 pre t.
+  Proof. intros. eapply (prefix_step_ok b L0 T0 ids0); eauto. Qed.
+
+  Lemma RDO : forall j t oj out, nth_error (b_txs b) j = Some t -> nth_error (t_outputs t) oj = Some out ->
+    stored_output st0 bn (t_id t, N.of_nat oj) = Some out.
+  Proof.
+    intros j t oj out Hj Ho. pose proof (rb_prefix_facts (b_txs b) [] (eq_sym (app_nil_r _))) as SF.
+    set (cnew := mkLc (t_id t, N.of_nat oj) bn (N.of_nat j) out).
+    assert (OR : origin bn L0 (b_txs b) cnew).
+    { right. exists j, t. split; auto. apply in_new_cells. eauto. }
+    unfold stored_output. apply (sf_acct _ _ _ _ _ SF) in OR. destruct OR as [OR|[j' [t' [Hj' Hop]]]].
+    - assert (G : get st0 (KOutPoint (t_id t, N.of_nat oj)) = Some (VCell bn (N.of_nat j) out)).
+      { apply LIF; auto. apply in_live_kvs. left. exists cnew. split; auto. left. reflexivity. }
+      rewrite G. reflexivity.
+    - cbn [cnew lc_op] in Hop.
+      destruct (get st0 (KOutPoint (t_id t, N.of_nat oj))) as [v|] eqn:G.
+      + exfalso. apply LIF in G; auto. apply in_live_kvs in G. destruct G as [[c' [G1 G2]]|[r [G1 G2]]].
+        * apply cell_kvs_key_info in G2. apply (sf_unspent _ _ _ _ _ SF c' G1). rewrite <- G2. exists j', t'. auto.
+        * pose proof (trow_kv_key_info r) as K. rewrite G1 in K. exact K.
+      + pose proof Hj' as Hs. apply nth_error_split in Hs. destruct Hs as [pre' [post' [E' L']]]. subst j'.
+        destruct (rb_step_ok pre' t' post' E') as [R _]. destruct (R _ Hop) as [c'' Hc''].
+        rewrite (RDC pre' t' post' _ c'' E' Hop Hc''). f_equal.
+        pose proof (rb_prefix_facts pre' (t' :: post') E') as SF'.
+        apply lookup_some in Hc''. destruct Hc'' as [Hc1 Hc2]. apply (sf_origin _ _ _ _ _ SF') in Hc1.
+        destruct POK as [_ [ND FR]]. destruct Hc1 as [Hc1|[j2 [t2 [G1 G2]]]].
+        * exfalso. apply Hid in Hc1. rewrite Hc2 in Hc1. apply (FR t); auto. eapply nth_error_In; eauto.
+        * apply in_new_cells in G2. destruct G2 as [oi [o2 [G2 ->]]]. cbn [lc_op lc_out] in *.
+          inversion Hc2 as [[Eid Eoi]]. assert (oi = oj) by lia. subst oi.
+          assert (t2 = t).
+          { apply (nodup_map_inj_in t_id (b_txs b)); auto.
+            - rewrite E'. apply in_or_app. left. eapply nth_error_In; eauto.
+            - eapply nth_error_In; eauto. }
+          subst t2. congruence.
+  Qed.
+
+  Lemma unmatched_id : forall pre t, smatched (N.of_nat (length pre)) t = false ->
+    PL bn L0 T0 (pre ++ [t]) = PL bn L0 T0 pre /\ PT bn L0 T0 (pre ++ [t]) = PT bn L0 T0 pre.
+  Proof.
+    intros pre t M. unfold smatched in M. apply orb_false_iff in M. destruct M as [M1 M2].
+    apply negb_false_iff in M2. destruct (t_outputs t) as [|o os] eqn:EO; [|discriminate].
+    assert (EI : tx_ins (N.of_nat (length pre)) t = []).
+    { unfold tx_ins. destruct (0 <? N.of_nat (length pre)); auto. cbn [andb] in M1.
+      apply negb_false_iff in M1. destruct (t_inputs t); [reflexivity|discriminate]. }
+    rewrite PL_snoc, PT_snoc. unfold live_tx, rows_tx, new_cells, out_trows, in_trows. rewrite EI, EO.
+    cbn [fold_left mapi concat]. rewrite !app_nil_r. split; auto.
+    unfold tx_ins in EI. destruct (0 <? N.of_nat (length pre)); [rewrite EI|]; cbn [mapi concat]; apply app_nil_r.
+  Qed.
+
+  Lemma live_rollback_txs : forall pre rest, b_txs b = pre ++ rest ->
+    forall st, LiveInv st (PL bn L0 T0 pre) (PT bn L0 T0 pre) ->
+    LiveInv (commit st (concat (rev (mapi rb 0 pre)))) L0 T0.
+  Proof.
+    induction pre as [|t pre IH] using rev_ind; intros rest E st LI.
+    - exact LI.
+    - rewrite <- app_assoc in E. cbn [app] in E.
+      rewrite mapi_app, rev_app_distr. cbn [mapi rev app concat]. rewrite N.add_0_l, commit_app.
+      apply (IH (t :: rest) E). unfold rb. destruct (smatched (N.of_nat (length pre)) t) eqn:M.
+      + eapply (live_rollback_tx st0 st b L0 T0 ids0 pre t); eauto.
+        * eapply rb_prefix_facts; eauto.
+        * eapply rb_step_ok; eauto.
+        * eapply (seq_pos bn L0 T0 ids0); eauto. eapply rb_prefix_ok; eauto.
+        * eapply RDH; eauto. rewrite E. apply nth_error_app_mid.
+        * intros oj out Ho. eapply RDO; eauto. rewrite E. apply nth_error_app_mid.
+      + destruct (unmatched_id pre t M) as [E1 E2]. rewrite E1, E2 in LI. exact LI.
+  Qed.
+
+  Lemma in_rb_all : forall o, In o (concat (rev (mapi rb 0 (b_txs b)))) -> live_key (bop_key o) = false ->
+    exists j t, nth_error (b_txs b) j = Some t /\ o = Del (KTxHash (t_id t)).
+  Proof.
+    intros o H Hl. apply in_concat in H. destruct H as [l [H1 H2]]. apply in_rev in H1.
+    apply in_mapi in H1. destruct H1 as [j [t [Hj ->]]]. rewrite N.add_0_l in H2.
+    exists j, t. split; auto. unfold rb in H2. destruct (smatched (N.of_nat j) t) eqn:M; [|contradiction].
+    pose proof Hj as Hs. apply nth_error_split in Hs. destruct Hs as [pre [post [E Lj]]]. subst j.
+    eapply (in_rops st0 b L0 T0 ids0 pre t) in H2; eauto.
+    - destruct H2 as [[c [G1 G2]]|[[r [G1 ->]]|[[c [G1 G2]]| ->]]]; auto; exfalso.
+      + apply in_map_iff in G2. destruct G2 as [[k v] [<- G2]]. apply cell_kvs_live in G2. cbn in Hl. congruence.
+      + cbn [DelK bop_key] in Hl. rewrite trow_kv_live in Hl. discriminate.
+      + apply in_map_iff in G2. destruct G2 as [[k v] [<- G2]]. apply cell_kvs_live in G2. cbn in Hl. congruence.
+    - eapply rb_step_ok; eauto.
+    - intros oj out Ho. eapply RDO; eauto.
+  Qed.
+End RollbackBlock.
